@@ -2,9 +2,13 @@ package c18
 
 import (
 	"bytes"
+	"context"
 	"fmt"
 	"net"
+	"reflect"
+	"strings"
 	"sync"
+	"sync/atomic"
 	"testing"
 	"time"
 
@@ -30,6 +34,7 @@ type opCase struct {
 	Kind   string `json:"server_kind"`
 	Opcode int    `json:"opcode"`
 	Bcast  bool   `json:"broadcast"`
+	NM     uint16 `json:"nm_flags,omitempty"` // further NM_FLAGS bits set in the probe request
 }
 
 // observation of one probe on a fresh server
@@ -60,7 +65,7 @@ func register(c *client, id uint16, name string, ip net.IP) bool {
 	return false
 }
 
-func probe(kind string, opcode int, bcast bool, preRegisterR bool, inAddl bool) (o obs, err error) {
+func probe(kind string, opcode int, bcast bool, nm uint16, preRegisterR bool, inAddl bool) (o obs, err error) {
 	srv, err := startServer(kind)
 	if err != nil {
 		return o, err
@@ -80,7 +85,7 @@ func probe(kind string, opcode int, bcast bool, preRegisterR bool, inAddl bool) 
 		return o, nil
 	}
 	o.rBefore = resolvable(c, 120, "RNAME", ipB)
-	p, ok := c.exchange(req{ID: 0x4242, Opcode: opcode, Bcast: bcast, QName: "QNAME", RRName: "RNAME", RRIP: ipB, InAddl: inAddl}, replyWait)
+	p, ok := c.exchange(req{ID: 0x4242, Opcode: opcode, Bcast: bcast, NM: nm, QName: "QNAME", RRName: "RNAME", RRIP: ipB, InAddl: inAddl}, replyWait)
 	o.replied = ok
 	if ok {
 		o.rcode = p.Rcode
@@ -89,7 +94,7 @@ func probe(kind string, opcode int, bcast bool, preRegisterR bool, inAddl bool) 
 	o.rAfter = resolvable(c, 130, "RNAME", ipB)
 	o.qAfter = resolvable(c, 140, "QNAME", ipA)
 	// a packet with the response bit set must not take the server down
-	c.send(req{ID: 0x5151, Opcode: opcode, Bcast: bcast, Resp: true, QName: "QNAME", RRName: "RNAME", RRIP: ipB}.bytes(), nil)
+	c.send(req{ID: 0x5151, Opcode: opcode, Bcast: bcast, NM: nm, Resp: true, QName: "QNAME", RRName: "RNAME", RRIP: ipB}.bytes(), nil)
 	if c.kind == "udp" {
 		c.recv(50 * time.Millisecond)
 	} else {
@@ -126,11 +131,11 @@ func checkOpcode(c opCase) []vf.Finding {
 	var traces []string
 	var last [2]obs
 	for _, inAddl := range []bool{false, true} {
-		absent, err := probe(c.Kind, c.Opcode, c.Bcast, false, inAddl)
+		absent, err := probe(c.Kind, c.Opcode, c.Bcast, c.NM, false, inAddl)
 		if err != nil {
 			return []vf.Finding{vf.F("harness", "cannot-start-server", "%v", err)}
 		}
-		present, err := probe(c.Kind, c.Opcode, c.Bcast, true, inAddl)
+		present, err := probe(c.Kind, c.Opcode, c.Bcast, c.NM, true, inAddl)
 		if err != nil {
 			return []vf.Finding{vf.F("harness", "cannot-start-server", "%v", err)}
 		}
@@ -149,8 +154,8 @@ func checkOpcode(c opCase) []vf.Finding {
 			got = t
 		}
 	}
-	desc := fmt.Sprintf("opcode %d broadcast %v: traces (record in answer / additional section) %v; last probe: absent-R {replied %v rcode %d answers %v R-after %v} present-R {replied %v rcode %d answers %v R-after %v}",
-		c.Opcode, c.Bcast, traces, last[0].replied, last[0].rcode, last[0].answersForQ, last[0].rAfter, last[1].replied, last[1].rcode, last[1].answersForQ, last[1].rAfter)
+	desc := fmt.Sprintf("opcode %d broadcast %v nm_flags %#04x: traces (record in answer / additional section) %v; last probe: absent-R {replied %v rcode %d answers %v R-after %v} present-R {replied %v rcode %d answers %v R-after %v}",
+		c.Opcode, c.Bcast, c.NM, traces, last[0].replied, last[0].rcode, last[0].answersForQ, last[0].rAfter, last[1].replied, last[1].rcode, last[1].answersForQ, last[1].rAfter)
 	if c.Opcode == 9 && (got == "refresh" || got == "none") {
 		return nil // alternate refresh opcode in deployed stacks, unassigned in RFC 1002: either is accepted
 	}
@@ -171,16 +176,27 @@ func checkOpcode(c opCase) []vf.Finding {
 func TestOpcodeExhaustive(t *testing.T) {
 	s := vf.Begin(t, P, "opcode-exhaustive")
 	s.SetExhaustive()
-	s.Note("all 16 opcodes x broadcast flag x 3 server kinds; each probed on fresh servers with the resource record absent / present beforehand and placed in the answer / additional section")
+	// RFC 1002 4.2.1.1: the flags word is R(1) OPCODE(4) NM_FLAGS(7) RCODE(4); a request is routed by R and
+	// OPCODE alone, whatever NM_FLAGS bits it carries (every real broadcast query carries RD and B).
+	nms := []uint16{0, 0x400, 0x200, 0x100, 0x080, 0x040, 0x020, 0x7E0}
+	if vf.Thorough() {
+		nms = nms[:0]
+		for v := uint16(0); v < 64; v++ {
+			nms = append(nms, v<<5)
+		}
+	}
+	s.Note("all 16 opcodes x %d settings of the NM_FLAGS bits AA, TC, RD, RA and the two reserved bits (none, each alone, all; thorough: all 64) x broadcast bit x 3 server kinds; each probed on fresh servers with the resource record absent / present beforehand and placed in the answer / additional section", len(nms))
 	vf.Enum(s, func(yield func(opCase)) {
 		for _, k := range kinds {
 			for op := 0; op < 16; op++ {
-				for _, b := range []bool{false, true} {
-					yield(opCase{k, op, b})
+				for _, nm := range nms {
+					for _, b := range []bool{false, true} {
+						yield(opCase{k, op, b, nm})
+					}
 				}
 			}
 		}
-	}, checkOpcode, func(c opCase) bool { return c.Opcode != 0 })
+	}, checkOpcode, func(c opCase) bool { return c.Opcode != 0 || c.NM != 0 || c.Bcast })
 }
 
 // ---- request isolation: bursts of concurrent clients ---------------------------------------------------
@@ -191,11 +207,82 @@ type burstCase struct {
 	PerConn int     `json:"requests_per_client"`
 	Stagger []int   `json:"stagger_us"`
 	Cuts    [][]int `json:"tcp_write_cuts"`
+	QPer    int     `json:"questions_per_request,omitempty"`    // 0 = 1; several questions make requests and responses exceed 255 bytes
+	Private int     `json:"private_names_per_client,omitempty"` // names each client registers, refreshes and (odd ones) releases during the burst
+}
+
+func (c burstCase) qper() int {
+	if c.QPer < 1 {
+		return 1
+	}
+	return c.QPer
 }
 
 func burstName(i, j int) string { return fmt.Sprintf("HOST%03dR%02d", i, j) }
 
+// names and addresses of the burst: question q of request j of client i; private name m of client i
+func (c burstCase) qName(i, j, q int) string {
+	if c.qper() == 1 {
+		return burstName(i, j)
+	}
+	return fmt.Sprintf("H%03dR%02dQ%02d", i, j, q)
+}
+func (c burstCase) qAddr(i, j, q int) net.IP { return ipN(10 + (i*c.PerConn+j)*c.qper() + q) }
+func privName(i, m int) string               { return fmt.Sprintf("PRIV%03dM%02d", i, m) }
+func privAddr(i, m int) net.IP               { return ipN(20000 + i*32 + m) }
+
 var inFlight2 int64
+
+// one request of a client's script and what came back for it
+type slot struct {
+	r       req
+	p       resp
+	ok      bool
+	retried bool // the request was sent more than once (lost datagram): a state-changing request may have been applied twice
+}
+
+// pipeline sends all requests first and reads afterwards, so that the requests of one client and of all
+// clients overlap; requests whose reply did not arrive (lost datagrams) are asked again one by one. Returns the
+// ids of replies that answer none of this client's outstanding requests.
+func pipeline(cl *client, slots []*slot, cuts func(k int) []int, sent map[uint16]int, got map[uint16]int) (foreign []uint16) {
+	byID := map[uint16]*slot{}
+	for k, sl := range slots {
+		byID[sl.r.ID] = sl
+		sent[sl.r.ID]++
+		var cs []int
+		if cuts != nil {
+			cs = cuts(k)
+		}
+		cl.send(sl.r.bytes(), cs)
+	}
+	pending := len(slots)
+	for reads := 0; pending > 0 && reads < 4*len(slots)+4; reads++ {
+		b, err := cl.recv(time.Second)
+		if err != nil {
+			break
+		}
+		p, ok := parseResp(b)
+		got[p.ID]++
+		sl := byID[p.ID]
+		if !ok || got[p.ID] > sent[p.ID] {
+			foreign = append(foreign, p.ID)
+			continue
+		}
+		if sl == nil || sl.ok {
+			continue // the late reply to a request of an earlier phase that was sent twice
+		}
+		sl.p, sl.ok = p, true
+		pending--
+	}
+	for _, sl := range slots {
+		if !sl.ok {
+			sl.retried = true
+			sent[sl.r.ID] += 3 // exchange re-sends a lost UDP datagram up to twice
+			sl.p, sl.ok = cl.exchange(sl.r, time.Second)
+		}
+	}
+	return foreign
+}
 
 func checkBurst(c burstCase) []vf.Finding {
 	srv, err := startServer(c.Kind)
@@ -207,12 +294,34 @@ func checkBurst(c burstCase) []vf.Finding {
 	if err != nil {
 		return []vf.Finding{vf.F("harness", "cannot-dial", "%v", err)}
 	}
+	Q := c.qper()
+	id := uint16(1000)
 	for i := 0; i < c.N; i++ {
 		for j := 0; j < c.PerConn; j++ {
-			if !register(setup, uint16(1000+2*(i*c.PerConn+j)), burstName(i, j), ipN(i*c.PerConn+j+10)) {
-				setup.close()
-				return []vf.Finding{vf.F(c.Kind+"/opcode-5", "registration-not-effective", "cannot pre-register %s", burstName(i, j))}
+			for q := 0; q < Q; q++ {
+				if !register(setup, id, c.qName(i, j, q), c.qAddr(i, j, q)) {
+					setup.close()
+					return []vf.Finding{vf.F(c.Kind+"/opcode-5", "registration-not-effective", "cannot pre-register %s", c.qName(i, j, q))}
+				}
+				id += 2
 			}
+		}
+	}
+	// which section of a request carries the record the server acts on (RFC 1002: additional; the
+	// implementation may read the answer section): settled once, through a registration that takes effect
+	inAddl := false
+	if c.Private > 0 {
+		found := false
+		for _, addl := range []bool{false, true} {
+			setup.exchange(req{ID: 900, Opcode: 5, QName: "SECTIONPROBE", RRName: "SECTIONPROBE", RRIP: ipN(9), InAddl: addl}, replyWait)
+			if resolvable(setup, 901, "SECTIONPROBE", ipN(9)) {
+				inAddl, found = addl, true
+				break
+			}
+		}
+		if !found {
+			setup.close()
+			return []vf.Finding{vf.F(c.Kind+"/opcode-5", "registration-not-effective", "cannot register SECTIONPROBE")}
 		}
 	}
 	setup.close()
@@ -223,17 +332,36 @@ func checkBurst(c burstCase) []vf.Finding {
 		}
 		defer clients[i].close()
 	}
-	type got struct {
-		i, j int
-		p    resp
-		ok   bool
+	// ids: 0x2000 + client*64 + slot; slots 0..7 queries, 8.. registrations, 16.. refreshes, 24.. releases, 32.. queries of private names
+	idOf := func(i, k int) uint16 { return uint16(0x2000 + i*64 + k) }
+	type script struct {
+		queries, regs, refreshes, releases, after []*slot
+		foreign                                   []uint16
 	}
-	var resMu sync.Mutex
-	var results []got
-	push := func(g got) { resMu.Lock(); results = append(results, g); resMu.Unlock() }
+	scripts := make([]*script, c.N)
 	var wg sync.WaitGroup
 	start := make(chan struct{})
 	for i := range clients {
+		sc := &script{}
+		scripts[i] = sc
+		for j := 0; j < c.PerConn; j++ {
+			r := req{ID: idOf(i, j), Opcode: 0, QName: c.qName(i, j, 0)}
+			for q := 1; q < Q; q++ {
+				r.QNames = append(r.QNames, c.qName(i, j, q))
+			}
+			sc.queries = append(sc.queries, &slot{r: r})
+		}
+		for m := 0; m < c.Private; m++ {
+			mk := func(base, opcode int) *slot {
+				return &slot{r: req{ID: idOf(i, base+m), Opcode: opcode, QName: privName(i, m), RRName: privName(i, m), RRIP: privAddr(i, m), InAddl: inAddl}}
+			}
+			sc.regs = append(sc.regs, mk(8, 5))
+			sc.refreshes = append(sc.refreshes, mk(16, 8))
+			if m%2 == 1 {
+				sc.releases = append(sc.releases, mk(24, 6))
+			}
+			sc.after = append(sc.after, &slot{r: req{ID: idOf(i, 32+m), Opcode: 0, QName: privName(i, m)}})
+		}
 		wg.Add(1)
 		go func(i int) {
 			defer wg.Done()
@@ -241,34 +369,22 @@ func checkBurst(c burstCase) []vf.Finding {
 			if len(c.Stagger) > 0 {
 				time.Sleep(time.Duration(c.Stagger[i%len(c.Stagger)]) * time.Microsecond)
 			}
-			// send everything first, then read: the requests of one client and of all clients overlap
-			for j := 0; j < c.PerConn; j++ {
-				var cuts []int
-				if len(c.Cuts) > 0 {
-					cuts = c.Cuts[(i+j)%len(c.Cuts)]
+			sent, got := map[uint16]int{}, map[uint16]int{}
+			cuts := func(k int) []int {
+				if len(c.Cuts) == 0 {
+					return nil
 				}
-				clients[i].send(req{ID: uint16(0x2000 + i*64 + j), Opcode: 0, QName: burstName(i, j)}.bytes(), cuts)
+				return c.Cuts[(i+k)%len(c.Cuts)]
 			}
-			seen := map[int]bool{}
-			for reads := 0; len(seen) < c.PerConn && reads < 4*c.PerConn+4; reads++ {
-				b, err := clients[i].recv(time.Second)
-				if err != nil {
-					break
-				}
-				p, ok := parseResp(b)
-				j := int(p.ID) - (0x2000 + i*64)
-				if !ok || j < 0 || j >= c.PerConn {
-					push(got{i, -1, p, false})
-					continue
-				}
-				seen[j] = true
-				push(got{i, j, p, true})
+			// the phases of one client follow each other (a refresh needs its registration); the clients are
+			// not synchronised, so registrations, refreshes, releases and queries of different clients overlap
+			first := append(append([]*slot{}, sc.regs...), sc.queries...)
+			if i%2 == 1 {
+				first = append(append([]*slot{}, sc.queries...), sc.regs...)
 			}
-			// lost datagrams: ask again, sequentially
-			for j := 0; j < c.PerConn; j++ {
-				if !seen[j] {
-					p, ok := clients[i].exchange(req{ID: uint16(0x2000 + i*64 + j), Opcode: 0, QName: burstName(i, j)}, time.Second)
-					push(got{i, j, p, ok})
+			for _, phase := range [][]*slot{first, sc.refreshes, sc.releases, sc.after} {
+				if len(phase) > 0 {
+					sc.foreign = append(sc.foreign, pipeline(clients[i], phase, cuts, sent, got)...)
 				}
 			}
 		}(i)
@@ -276,28 +392,87 @@ func checkBurst(c burstCase) []vf.Finding {
 	close(start)
 	wg.Wait()
 	var fs []vf.Finding
-	answered := map[[2]int]bool{}
-	for _, g := range results {
-		if g.j < 0 {
-			fs = append(fs, vf.F(c.Kind, "response-with-foreign-transaction-id", "client %d received id %#x", g.i, g.p.ID))
-			continue
+	for i, sc := range scripts {
+		for _, id := range sc.foreign {
+			fs = append(fs, vf.F(c.Kind, "response-with-foreign-transaction-id", "client %d received id %#x (more often than it sent it)", i, id))
 		}
-		if !g.ok {
-			fs = append(fs, vf.F(c.Kind, "request-never-answered", "client %d request %d", g.i, g.j))
-			continue
-		}
-		answered[[2]int{g.i, g.j}] = true
-		want := ipN(g.i*c.PerConn + g.j + 10)
-		if g.p.Rcode != 0 || g.p.Answers < 1 || !g.p.hasAddr(want) || !g.p.hasName(burstName(g.i, g.j)) {
-			fs = append(fs, vf.F(c.Kind, "response-does-not-answer-its-own-request", "client %d request %d (id %#x, %s -> %v): rcode %d, %d answers, raw %x", g.i, g.j, g.p.ID, burstName(g.i, g.j), want, g.p.Rcode, g.p.Answers, g.p.Raw))
-			continue
-		}
-		for i2 := 0; i2 < c.N; i2++ {
-			for j2 := 0; j2 < c.PerConn; j2++ {
-				if (i2 != g.i || j2 != g.j) && (g.p.hasName(burstName(i2, j2)) || g.p.hasAddr(ipN(i2*c.PerConn+j2+10))) {
-					fs = append(fs, vf.F(c.Kind, "response-carries-another-requests-data", "response to client %d request %d contains name/address of client %d request %d: %x", g.i, g.j, i2, j2, g.p.Raw))
+		for j, sl := range sc.queries {
+			if !sl.ok {
+				fs = append(fs, vf.F(c.Kind, "request-never-answered", "client %d request %d", i, j))
+				continue
+			}
+			good := sl.p.Rcode == 0 && sl.p.Answers == Q
+			for q := 0; q < Q; q++ {
+				good = good && sl.p.hasAddr(c.qAddr(i, j, q)) && sl.p.hasName(c.qName(i, j, q))
+			}
+			if !good {
+				fs = append(fs, vf.F(c.Kind, "response-does-not-answer-its-own-request", "client %d request %d (id %#x, %d questions %s.. -> %v..): rcode %d, %d answers, raw %x", i, j, sl.p.ID, Q, c.qName(i, j, 0), c.qAddr(i, j, 0), sl.p.Rcode, sl.p.Answers, sl.p.Raw))
+				continue
+			}
+			for i2 := 0; i2 < c.N; i2++ {
+				for j2 := 0; j2 < c.PerConn; j2++ {
+					for q2 := 0; q2 < Q && (i2 != i || j2 != j); q2++ {
+						if sl.p.hasName(c.qName(i2, j2, q2)) || sl.p.hasAddr(c.qAddr(i2, j2, q2)) {
+							fs = append(fs, vf.F(c.Kind, "response-carries-another-requests-data", "response to client %d request %d contains name/address of client %d request %d: %x", i, j, i2, j2, sl.p.Raw))
+						}
+					}
+				}
+				for m2 := 0; m2 < c.Private; m2++ {
+					if sl.p.hasName(privName(i2, m2)) || sl.p.hasAddr(privAddr(i2, m2)) {
+						fs = append(fs, vf.F(c.Kind, "response-carries-another-requests-data", "response to client %d request %d contains private name/address %d of client %d: %x", i, j, m2, i2, sl.p.Raw))
+					}
 				}
 			}
+		}
+		// registrations, refreshes and releases of names nobody else touches succeed
+		for _, ph := range []struct {
+			what  string
+			slots []*slot
+		}{{"registration", sc.regs}, {"refresh", sc.refreshes}, {"release", sc.releases}} {
+			for _, sl := range ph.slots {
+				switch {
+				case !sl.ok:
+					fs = append(fs, vf.F(c.Kind, "request-never-answered", "client %d %s of %s", i, ph.what, sl.r.QName))
+				case sl.p.Rcode != 0 && !(sl.retried && ph.what != "refresh"):
+					fs = append(fs, vf.F(c.Kind, "concurrent-"+ph.what+"-of-own-name-refused", "client %d %s of %s -> %v (id %#x): rcode %d", i, ph.what, sl.r.QName, sl.r.RRIP, sl.r.ID, sl.p.Rcode))
+				}
+			}
+		}
+		// what the client sees of its own names afterwards
+		for m, sl := range sc.after {
+			released := m%2 == 1
+			switch {
+			case !sl.ok:
+				fs = append(fs, vf.F(c.Kind, "request-never-answered", "client %d query of %s", i, sl.r.QName))
+			case released && (sl.p.Rcode == 0 && sl.p.Answers > 0):
+				fs = append(fs, vf.F(c.Kind, "released-name-still-resolves", "client %d released %s, a query then returns %d answers: %x", i, sl.r.QName, sl.p.Answers, sl.p.Raw))
+			case !released && !(sl.p.Rcode == 0 && sl.p.Answers == 1 && sl.p.hasAddr(privAddr(i, m)) && sl.p.hasName(privName(i, m))):
+				fs = append(fs, vf.F(c.Kind, "registered-name-does-not-resolve-to-its-registrant", "client %d registered %s -> %v: rcode %d, %d answers, raw %x", i, sl.r.QName, privAddr(i, m), sl.p.Rcode, sl.p.Answers, sl.p.Raw))
+			}
+		}
+	}
+	// the table afterwards, seen by a fresh client: every kept private name has its own client's address, and only that
+	if c.Private > 0 && len(fs) == 0 {
+		if tail, err := dial(srv); err == nil {
+			for i := 0; i < c.N && len(fs) == 0; i++ {
+				for m := 0; m < c.Private; m++ {
+					p, ok := tail.exchange(req{ID: uint16(0x7000 + i*32 + m), Opcode: 0, QName: privName(i, m)}, time.Second)
+					if !ok {
+						fs = append(fs, vf.F(c.Kind, "request-never-answered", "final query of %s", privName(i, m)))
+						continue
+					}
+					if m%2 == 1 {
+						if p.Rcode == 0 && p.Answers > 0 {
+							fs = append(fs, vf.F(c.Kind, "released-name-still-resolves", "final scan: %s (released by client %d): %x", privName(i, m), i, p.Raw))
+						}
+						continue
+					}
+					if !(p.Rcode == 0 && p.Answers == 1 && p.hasAddr(privAddr(i, m))) {
+						fs = append(fs, vf.F(c.Kind, "registered-name-does-not-resolve-to-its-registrant", "final scan: %s registered by client %d with %v: rcode %d, %d answers, raw %x", privName(i, m), i, privAddr(i, m), p.Rcode, p.Answers, p.Raw))
+					}
+				}
+			}
+			tail.close()
 		}
 	}
 	if len(fs) > 3 {
@@ -306,32 +481,61 @@ func checkBurst(c burstCase) []vf.Finding {
 	return fs
 }
 
+// genBurst: UDP responses stay within the 576 bytes every NBNS datagram endpoint must accept (at most 11
+// answers of 48 bytes), TCP messages go up to 40 questions (request 1.5 KB, response 1.9 KB).
 func genBurst(t *rapid.T, kind string) burstCase {
 	c := burstCase{Kind: kind, N: rapid.IntRange(2, 16).Draw(t, "clients"), PerConn: 1}
+	maxQ := 11
 	if kind == "tcp" {
+		maxQ = 40
 		c.N = rapid.IntRange(2, 6).Draw(t, "conns")
 		c.PerConn = rapid.IntRange(1, 4).Draw(t, "perConn")
 		for i, n := 0, rapid.IntRange(0, 3).Draw(t, "ncuts"); i < n; i++ {
-			c.Cuts = append(c.Cuts, rapid.SliceOfN(rapid.IntRange(0, 60), 0, 4).Draw(t, "cuts"))
+			c.Cuts = append(c.Cuts, rapid.SliceOfN(rapid.OneOf(rapid.IntRange(0, 60), rapid.IntRange(0, 2000)), 0, 4).Draw(t, "cuts"))
 		}
 	}
 	c.Stagger = rapid.SliceOfN(rapid.IntRange(0, 300), 1, 4).Draw(t, "stagger")
+	switch rapid.IntRange(0, 2).Draw(t, "size") {
+	case 0:
+		c.QPer = 1
+	case 1:
+		c.QPer = rapid.IntRange(7, maxQ).Draw(t, "questions") // 7 questions: 278-byte request, 348-byte response
+	default:
+		c.QPer = rapid.IntRange(1, maxQ).Draw(t, "questions")
+	}
+	if rapid.IntRange(0, 3).Draw(t, "mutating") > 0 {
+		c.Private = rapid.IntRange(1, 6).Draw(t, "private")
+	}
 	return c
+}
+
+func burstNontrivial(c burstCase) bool { return c.N*c.PerConn >= 2 }
+
+func checkBurstClassed(s *vf.Sub) func(burstCase) []vf.Finding {
+	return func(c burstCase) []vf.Finding {
+		if c.qper() >= 7 {
+			s.Class("messages-above-255-bytes")
+		}
+		if c.Private > 0 {
+			s.Class("concurrent-registration-refresh-release")
+		}
+		return checkBurst(c)
+	}
 }
 
 func TestUDPIsolationServer(t *testing.T) {
 	s := vf.Begin(t, P, "udp-isolation-server")
-	vf.Rapid(s, vf.N(25, 300), func(t *rapid.T) burstCase { return genBurst(t, "server") }, checkBurst, func(c burstCase) bool { return c.N >= 2 })
+	vf.Rapid(s, vf.N(25, 300), func(t *rapid.T) burstCase { return genBurst(t, "server") }, checkBurstClassed(s), burstNontrivial)
 }
 
 func TestUDPIsolationUDPServer(t *testing.T) {
 	s := vf.Begin(t, P, "udp-isolation-udpserver")
-	vf.Rapid(s, vf.N(25, 300), func(t *rapid.T) burstCase { return genBurst(t, "udp") }, checkBurst, func(c burstCase) bool { return c.N >= 2 })
+	vf.Rapid(s, vf.N(25, 300), func(t *rapid.T) burstCase { return genBurst(t, "udp") }, checkBurstClassed(s), burstNontrivial)
 }
 
 func TestTCPIsolation(t *testing.T) {
 	s := vf.Begin(t, P, "tcp-isolation")
-	vf.Rapid(s, vf.N(25, 300), func(t *rapid.T) burstCase { return genBurst(t, "tcp") }, checkBurst, func(c burstCase) bool { return c.N*c.PerConn >= 2 })
+	vf.Rapid(s, vf.N(25, 300), func(t *rapid.T) burstCase { return genBurst(t, "tcp") }, checkBurstClassed(s), burstNontrivial)
 }
 
 // ---- LLMNR server: every response answers its own request --------------------------------------------------
@@ -552,14 +756,282 @@ func TestLLMNRClientMatch(t *testing.T) {
 	}, checkLLMNRClient, func(c clientCase) bool { return len(c.Waiting) >= 2 && len(c.Sent) >= 2 })
 }
 
+// ---- LLMNR client: Query itself -------------------------------------------------------------------------------------
+//
+// Client.Query registers its id in Client.Queries, sends the query to the LLMNR multicast group and waits. The
+// responder of this check learns the ids of the outstanding queries from the keys of that map (whatever integer
+// type they are stored as) and answers each of them, again and again until every Query has returned, from a
+// loopback socket. Every Query must return a response, carrying an id that was outstanding and the answer made
+// for that id, and no two queries the same one.
+
+type queryCase struct {
+	K       int      `json:"concurrent_queries"`
+	Foreign []uint16 `json:"foreign_ids"` // responses nobody waits for, sent along (skipped while outstanding)
+}
+
+func keyID(k any) (uint16, bool) {
+	v := reflect.ValueOf(k)
+	switch {
+	case v.CanUint():
+		return uint16(v.Uint()), true
+	case v.CanInt():
+		return uint16(v.Int()), true
+	}
+	return 0, false
+}
+
+var queryConclusive bool
+
+func checkLLMNRQuery(c queryCase) []vf.Finding {
+	queryConclusive = false
+	baseline := len(libGoroutines())
+	cl, err := llmnr.NewClient()
+	if err != nil {
+		return []vf.Finding{vf.F("harness", "cannot-create-llmnr-client", "%v", err)}
+	}
+	port := cl.Conn.LocalAddr().(*net.UDPAddr).Port
+	peer, err := net.DialUDP("udp4", nil, &net.UDPAddr{IP: net.IPv4(127, 0, 0, 1), Port: port})
+	if err != nil {
+		cl.Close()
+		return []vf.Finding{vf.F("harness", "cannot-dial", "%v", err)}
+	}
+	type outcome struct {
+		m   *llmnr.Message
+		err error
+	}
+	outs := make([]outcome, c.K)
+	var wg sync.WaitGroup
+	for k := 0; k < c.K; k++ {
+		wg.Add(1)
+		go func(k int) {
+			defer wg.Done()
+			ctx, cancel := context.WithTimeout(context.Background(), 10*time.Second)
+			defer cancel()
+			m, err := cl.Query(ctx, fmt.Sprintf("query-%02d.test", k), llmnr.TypeA)
+			outs[k] = outcome{m, err}
+		}(k)
+	}
+	allDone := make(chan struct{})
+	go func() { wg.Wait(); close(allDone) }()
+	seen := map[uint16]int{} // id -> number of responses sent for it
+	respond := func(id uint16) {
+		m := llmnr.NewMessage()
+		m.ID = id
+		m.SetResponse()
+		m.AddAnswerClassINTypeA(fmt.Sprintf("id-%05d.test", id), ipN(int(id)).String())
+		if wire, err := m.Encode(); err == nil {
+			peer.Write(wire)
+		}
+	}
+	for done := false; !done; {
+		pending := map[uint16]bool{}
+		cl.Queries.Range(func(k, _ any) bool {
+			if id, ok := keyID(k); ok {
+				pending[id] = true
+			}
+			return true
+		})
+		for _, id := range c.Foreign {
+			if !pending[id] && seen[id] == 0 {
+				respond(id)
+			}
+		}
+		for id := range pending {
+			seen[id]++
+			respond(id)
+		}
+		select {
+		case <-allDone:
+			done = true
+		case <-time.After(2 * time.Millisecond):
+		}
+	}
+	peer.Close()
+	var fs []vf.Finding
+	conclusive := len(seen) >= c.K // fewer: two queries drew the same random id
+	for _, o := range outs {
+		if o.err != nil && strings.Contains(o.err.Error(), "failed to send query") {
+			conclusive = false // no multicast route in this sandbox
+		}
+	}
+	if conclusive {
+		queryConclusive = true
+		byID := map[uint16]int{}
+		for k, o := range outs {
+			if o.err != nil || o.m == nil {
+				fs = append(fs, vf.F("llmnr.Client.Query", "matching-response-not-delivered", "query %d returned %v although every outstanding id was answered repeatedly (ids and number of responses sent: %v)", k, o.err, seen))
+				continue
+			}
+			if seen[o.m.ID] == 0 || !o.m.IsResponse() || len(o.m.Answers) != 1 || o.m.Answers[0].Name != fmt.Sprintf("id-%05d.test", o.m.ID) {
+				fs = append(fs, vf.F("llmnr.Client.Query", "response-delivered-to-wrong-query", "query %d returned id %#x answers %+v; outstanding ids were %v", k, o.m.ID, o.m.Answers, seen))
+				continue
+			}
+			if k2, dup := byID[o.m.ID]; dup {
+				fs = append(fs, vf.F("llmnr.Client.Query", "response-delivered-to-wrong-query", "queries %d and %d both returned the response with id %#x", k2, k, o.m.ID))
+			}
+			byID[o.m.ID] = k
+		}
+	}
+	ok, took := within(stopBudget, func() { cl.Close() })
+	if !ok {
+		fs = append(fs, vf.F("llmnr.Client.Close", "close-does-not-return", "after %v", took))
+	}
+	if left := waitNoLibGoroutines(baseline, 2*time.Second); left != nil {
+		fs = append(fs, vf.F("llmnr.Client", "goroutines-leaked-after-close", "%v", left))
+	}
+	return fs
+}
+
+func TestLLMNRClientQuery(t *testing.T) {
+	s := vf.Begin(t, P, "llmnr-client-query")
+	vf.Rapid(s, vf.N(40, 500), func(t *rapid.T) queryCase {
+		return queryCase{K: rapid.IntRange(1, 6).Draw(t, "queries"), Foreign: rapid.SliceOfN(rapid.Uint16(), 0, 4).Draw(t, "foreign")}
+	}, func(c queryCase) []vf.Finding {
+		fs := checkLLMNRQuery(c)
+		if !queryConclusive {
+			s.Class("inconclusive (no multicast route, or two queries drew the same id)")
+		}
+		return fs
+	}, func(c queryCase) bool { return queryConclusive })
+}
+
+// ---- stopping twice, stopping what was never started ----------------------------------------------------------------
+
+type twiceCase struct {
+	Target string `json:"target"` // server, udp, tcp, llmnr-client, llmnr-server
+	Mode   string `json:"mode"`   // unstarted, twice, twice-concurrent
+}
+
+// guarded runs fn under the stop budget and turns a panic of fn into a message.
+func guarded(fn func()) (returned bool, panicked string) {
+	var p atomic.Value
+	ok, _ := within(stopBudget, func() {
+		defer func() {
+			if r := recover(); r != nil {
+				p.Store(fmt.Sprint(r))
+			}
+		}()
+		fn()
+	})
+	if v := p.Load(); v != nil {
+		return ok, v.(string)
+	}
+	return ok, ""
+}
+
+func checkTwice(c twiceCase) []vf.Finding {
+	baseline := len(libGoroutines())
+	var stop func()
+	subject := c.Target + ".Stop"
+	switch c.Target {
+	case "llmnr-client":
+		subject = "llmnr.Client.Close"
+		cl, err := llmnr.NewClient()
+		if err != nil {
+			return []vf.Finding{vf.F("harness", "cannot-create-llmnr-client", "%v", err)}
+		}
+		stop = func() { cl.Close() }
+	case "llmnr-server":
+		subject = "llmnr.Server.Close"
+		srv, err := llmnr.NewServer("udp4", nil)
+		if err != nil {
+			return []vf.Finding{vf.F("harness", "cannot-create-llmnr-server", "%v", err)}
+		}
+		if c.Mode != "unstarted" {
+			conn, err := net.ListenUDP("udp4", &net.UDPAddr{IP: net.IPv4(127, 0, 0, 1)})
+			if err != nil {
+				return []vf.Finding{vf.F("harness", "cannot-listen", "%v", err)}
+			}
+			srv.Conn = conn
+			srv.Address = conn.LocalAddr().(*net.UDPAddr)
+			go srv.Serve()
+		}
+		stop = func() { srv.Close() }
+	default:
+		var srv server
+		var err error
+		if c.Mode == "unstarted" {
+			srv, err = newServer(c.Target, "127.0.0.1:0")
+		} else {
+			var r *running
+			if r, err = startServer(c.Target); err == nil {
+				srv = r.srv
+			}
+		}
+		if err != nil {
+			return []vf.Finding{vf.F("harness", "cannot-start-server", "%v", err)}
+		}
+		stop = srv.Stop
+	}
+	var fs []vf.Finding
+	report := func(call string, returned bool, panicked string) {
+		switch {
+		case panicked != "":
+			fs = append(fs, vf.F(subject, call+"-panics", "%s (%s): %s", call, c.Mode, panicked))
+		case !returned:
+			fs = append(fs, vf.F(subject, call+"-does-not-return", "%s (%s): still blocked after %v", call, c.Mode, stopBudget))
+		}
+	}
+	switch c.Mode {
+	case "unstarted":
+		r, p := guarded(stop)
+		report("stop-before-start", r, p)
+	case "twice":
+		r, p := guarded(stop)
+		report("stop", r, p)
+		if len(fs) == 0 {
+			r, p = guarded(stop)
+			report("second-stop", r, p)
+		}
+	default:
+		var wg sync.WaitGroup
+		var mu sync.Mutex
+		for k := 0; k < 2; k++ {
+			wg.Add(1)
+			go func() {
+				defer wg.Done()
+				r, p := guarded(stop)
+				mu.Lock()
+				report("second-stop", r, p)
+				mu.Unlock()
+			}()
+		}
+		wg.Wait()
+		if len(fs) > 1 {
+			fs = fs[:1]
+		}
+	}
+	if len(fs) == 0 {
+		if left := waitNoLibGoroutines(baseline, 2*time.Second); left != nil {
+			fs = append(fs, vf.F(subject, "goroutines-leaked-after-stop", "%s: %v", c.Mode, left))
+		}
+	}
+	return fs
+}
+
+func TestStopTwiceOrUnstarted(t *testing.T) {
+	s := vf.Begin(t, P, "stop-twice-or-unstarted")
+	s.SetExhaustive()
+	vf.Enum(s, func(yield func(twiceCase)) {
+		for _, target := range []string{"server", "udp", "tcp", "llmnr-client", "llmnr-server"} {
+			for _, mode := range []string{"unstarted", "twice", "twice-concurrent"} {
+				if target == "llmnr-client" && mode == "unstarted" {
+					continue // NewClient starts the read loop
+				}
+				yield(twiceCase{target, mode})
+			}
+		}
+	}, checkTwice, nil)
+}
+
 // ---- stopping at any moment ----------------------------------------------------------------------------------
 
 type stopCase struct {
-	Kind     string `json:"server_kind"`
-	Clients  int    `json:"clients_in_flight"`
-	DelayUS  int    `json:"stop_delay_us"` // relative to the start of the burst; negative: stop before the burst
-	IdleTCP  int    `json:"idle_tcp_connections"`
-	NoStart  bool   `json:"stop_without_start"`
+	Kind    string `json:"server_kind"`
+	Clients int    `json:"clients_in_flight"`
+	DelayUS int    `json:"stop_delay_us"` // relative to the start of the burst; negative: stop before the burst
+	IdleTCP int    `json:"idle_tcp_connections"`
+	NoStart bool   `json:"stop_without_start"`
 }
 
 func runStop(c stopCase) (finding *vf.Finding, overrun bool) {
